@@ -123,7 +123,19 @@ class Sort(Part):
         rng = pyrandom.Random(case["cseed"])
         if case["kind"] == "model":
             inds = build_population(rng, case["pop"], share_vectors=rng.random() < 0.2)
-            return [sort_event(inds, rng)]
+            trace = [sort_event(inds, rng)]
+            if rng.random() < 0.35:
+                # the SAME individuals are sorted again after their costs changed and in another order, as swarm algorithms do with
+                # copied feature dictionaries: counters, dominated lists and front numbers of the first sort must not leak
+                import copy
+                again = build_population(rng, [rng.choice(case["pop"]) for _ in inds])
+                for old, new in zip(inds, again):
+                    old.costs_signed, old.costs = new.costs_signed, new.costs
+                rng.shuffle(inds)
+                for i in inds:
+                    i.features = copy.deepcopy(i.features)
+                trace.append(sort_event(inds, rng))
+            return trace
         if case["kind"] == "random":
             from artap.individual import Individual
             m = case["m"]
